@@ -3,7 +3,7 @@
    half is also checked on the simulation model by correspondence and an independent transition checker (harness/propcheck.py c03). *)
 From Coq Require Import ZArith List Bool.
 From V Require Import Model.Num Model.Status Model.Live Gen.StatusC Proofs.LiveP.
-From V Require Model.Sim Model.SimLoop Model.SimGuard Model.SimCases Model.Examples Proofs.SimResetP Proofs.SimLinkP Proofs.SimAwaitP Proofs.SimLifeP Proofs.SimFrozenP.
+From V Require Model.Sim Model.SimLoop Model.SimGuard Model.SimCases Model.Examples Proofs.SimResetP Proofs.SimLinkP Proofs.SimAwaitP Proofs.SimLifeP Proofs.SimFrozenP Model.Betdaq Proofs.BetdaqP.
 From V Require Import Model.Guards Proofs.GuardsP.
 Open Scope Z_scope.
 
@@ -152,6 +152,28 @@ Example C03_sim_run_example :
   view (fold_left (SimLoop.step tb_up Examples.std_cfg 1 c03_script) (firstn 4 c03_es) c03_init) = ([[(1, SCancelling, [SPending; SExecutable; SCancelling])]], [SimLoop.KCancel]) /\
   view (fold_left (SimLoop.step tb_up Examples.std_cfg 1 c03_script) c03_es c03_init) = ([[(1, SExecComplete, [SPending; SExecutable; SCancelling; SExecComplete])]], []).
 Proof. vm_compute. repeat split; reflexivity. Qed.
+
+(* ---- the BETDAQ order class (Model/Betdaq.v: BetdaqExecution handlers, process_betdaq_current_order, BetdaqOrder guards; the exchange unconstrained:
+   receipts, error codes, failed calls, poll rows of any content at any time; an answer is an event only while its request is outstanding).
+   Tied to the code by harness/impl/betdaqlib.py, which records the events in the order the real handlers process them.
+   (1) every status log follows the documented lifecycle and ends in the order's status *)
+Theorem C03_betdaq_lifecycle_legal : forall es,
+  SimGuard.lifecycle_path SNone (Betdaq.bo_log (Betdaq.brun es)) = true /\ last (Betdaq.bo_log (Betdaq.brun es)) SNone = Betdaq.bo_status (Betdaq.brun es).
+Proof. exact BetdaqP.betdaq_lifecycle_legal. Qed.
+Print Assumptions C03_betdaq_lifecycle_legal.
+(* (2) an order reported complete stays complete whatever arrives later - also the late answer to a request that was in flight (after the repair of
+   F-C03-4: the handlers' reset goes through _reset_order) *)
+Theorem C03_betdaq_complete_is_final : forall es1 es2,
+  Betdaq.bo_status (Betdaq.brun es1) = SExecComplete -> Betdaq.bo_status (Betdaq.brun (es1 ++ es2)) = SExecComplete.
+Proof. exact BetdaqP.betdaq_complete_is_final. Qed.
+Print Assumptions C03_betdaq_complete_is_final.
+(* (3) a request on an order that does not rest Executable with a known id changes nothing *)
+Theorem C03_betdaq_request_rejected : forall o, Betdaq.bo_status o <> SExecutable \/ Betdaq.bo_bet o = false ->
+  Betdaq.bstep o Betdaq.BReqUpdate = o /\ Betdaq.bstep o Betdaq.BReqCancel = o.
+Proof. exact BetdaqP.betdaq_request_rejected. Qed.
+Example C03_betdaq_example :
+  Betdaq.bo_log (Betdaq.brun [Betdaq.BReceipt true; Betdaq.BReqUpdate; Betdaq.BPoll true true; Betdaq.BUpdateAnswer true; Betdaq.BReqCancel]) = [SPending; SExecutable; SUpdating; SExecComplete].
+Proof. reflexivity. Qed.
 
 (* non-vacuity *)
 Example C03_example : let s := lrun (lstate0 COMPLETE_STATUS) [LPlace 0 0 0 101 500 200 false; LResponsePlace [0] [PSuccess 0 (Some 7001) 0]; LReq 0 0 0] in
